@@ -44,6 +44,8 @@ def make_items(seed, tier):
             "dest_mode": over.get("dest_mode") or r.weighted([(2, "newfile"), (3, "existing"), (2, "stdout_pipe"), (1, "stdout_file")]),
             "dots": over.get("dots") or r.weighted([(6, "none"), (1, "regex"), (1, "dfa"), (1, "both")]),
             "fault_mode": over.get("fault_mode", "enumerate"),
+            # what isatty() answers for stdout/stderr is configuration too (colour, paging, width logic must not matter)
+            "tty": over.get("tty") or r.weighted([(5, ""), (2, "2"), (1, "12")]),
         }
         it["id"] = len(items)
         items.append(it)
@@ -145,6 +147,7 @@ def base_case(item):
         "binary": "complgen", "argv": argv, "files": files, "stdin": stdin,
         "stdout": "file" if item["dest_mode"] == "stdout_file" else "pipe",
         "roles": roles, "plan": [], "env": {"LC_ALL": "C"}, "stack_kb": 8192, "watch": watch,
+        "plan_prefix": ["tty %s 1" % ch for ch in item.get("tty", "")],
     }
 
 
@@ -739,6 +742,11 @@ def real_kernel_crosscheck():
             runs += 1
             if r.returncode != 1 or not r.stderr:
                 out.append({"class": "real-kernel:dest-full:exit%s" % r.returncode, "key": "real-kernel:dest-full", "shell": sh, "stderr": proc.enc(r.stderr)[-400:]})
+            for bad_dest, label in ((".", "dest-is-directory"), ("no/such/dir/out", "dest-in-missing-directory")):
+                r = subprocess.run([build.COMPLGEN, "--" + sh, bad_dest, "w.usage"], cwd=d, capture_output=True, env={"LC_ALL": "C"}, timeout=30)
+                runs += 1
+                if r.returncode != 1 or not r.stderr:
+                    out.append({"class": "real-kernel:%s:exit%s" % (label, r.returncode), "key": "real-kernel:" + label, "shell": sh, "stderr": proc.enc(r.stderr)[-400:]})
             # 2. stdout on a full device
             with open("/dev/full", "wb") as full:
                 r = subprocess.run([build.COMPLGEN, "--" + sh, "-", "w.usage"], cwd=d, stdout=full, stderr=subprocess.PIPE, env={"LC_ALL": "C"}, timeout=30)
